@@ -1,16 +1,18 @@
 #!/bin/bash
 # usage: tools/confirm_mutant.sh <worktree> <seeded-id>
 # Confirms: 129 tests pass with the change; demo.py exits 1 with it and 0 without it.  Then stores patch.diff + demo.py under seeded/<id>/.
+# (git stash is shared between worktrees of one repository, so the change is taken off and put back with git apply.)
 wt=$1; id=$2
 cd $wt || exit 2
+git diff > /tmp/confirm-$$.patch
 t=$(PYTHONPATH=$wt/src /venv/bin/python -m pytest -q -p no:cacheprovider test 2>&1 | tail -1)
 timeout 300 /venv/bin/python demo.py > /tmp/demo-with.$$ 2>&1; with=$?
-git stash -q
+git apply -R /tmp/confirm-$$.patch
 timeout 300 /venv/bin/python demo.py > /tmp/demo-without.$$ 2>&1; without=$?
-git stash pop -q
+git apply /tmp/confirm-$$.patch
 echo "tests: $t | demo with change: exit $with ($(tail -1 /tmp/demo-with.$$ | cut -c1-80)) | without: exit $without ($(tail -1 /tmp/demo-without.$$ | cut -c1-80))"
 d=/verif/seeded/$id; mkdir -p $d
-git diff > $d/patch.diff
+cp /tmp/confirm-$$.patch $d/patch.diff
 sed "s#$wt#/repo#g" demo.py > $d/demo.py
 echo "$t" | grep -q "129 passed" && [ $with -eq 1 ] && [ $without -eq 0 ] && echo CONFIRMED || echo NOT-CONFIRMED
-rm -f /tmp/demo-with.$$ /tmp/demo-without.$$
+rm -f /tmp/demo-with.$$ /tmp/demo-without.$$ /tmp/confirm-$$.patch
